@@ -93,6 +93,9 @@ SymC10(C, E) ==
         \/ E[p].k = "run-exc" /\ E[p].v = "other"
         \* a job of a nested scheduler active outside the nested run
         \/ \E k \in KidsOf(C, s) : \E i \in Idx(E) : i > p /\ E[i].n = k /\ E[i].k \in {"start", "run-begin", "end", "raise"}
+  \* the timeout of a nested scheduler is measured from the beginning of its own run
+  \/ \E s \in SchedsOf(C) \ {1} : C.tmo[s] >= 0 /\ StartPos(E, s) > 0 /\
+        \E d \in DiagsAt(E, s) : E[d].v = "timeout" /\ E[d].t < E[StartPos(E, s)].t + C.tmo[s]
   \* a successor of a nested scheduler started before that nested run was over
   \/ \E j \in NodesOf(C) \ {1} : \E r \in C.req[j] : ~IsJobN(C, r) /\ StartPos(E, j) > 0
                                   /\ (OverPos(E, r) = 0 \/ OverPos(E, r) > StartPos(E, j))
